@@ -67,7 +67,7 @@ PROPS = {
         family="eco", edge_q=["credits2_e"], edge=["basket_e", "credits2_e"],
         mc=[("basket_q", 600)], mc_t=[("basket_t", 1500)],
         inv=[],
-        step=["C11_PutOnlyIf", "C11_PutIf", "C11_OldestFirst", "C11_AutoRetire"],
+        step=["C11_PutOnlyIf", "C11_PutIf", "C11_OldestFirst", "C11_AutoRetire", "C11_CriteriaAsSet"],
         tinv=[],
     ),
     "C12": dict(
@@ -82,19 +82,19 @@ PROPS = {
         parts=[
             dict(family="eco", edge_q=["allow_q"], edge=["roles_q", "allow_q", "market_e"],
                  mc=[("roles_q", 120), ("allow_q", 60), ("market_q", 300)], mc_t=[("roles_t", 600), ("allow_q", 60), ("market_q", 600)],
-                 inv=[], step=["C08_Authorised", "C08_Footprint", "C08_SealedStaysSealed"], tinv=[]),
+                 inv=[], step=["C08_Authorised", "C08_Footprint", "C08_SealedStaysSealed", "C08_Effect"], tinv=[]),
             # the data service: resolver manager unless public; only the named resolver changes
-            dict(family="data", mc_module="MC_Data", trace_module="TraceData",
+            dict(family="data", mc_module="MC_Data", trace_module="TraceData", edge_q=["data_e4"], edge=["data_e4", "data_e5"],
                  mc=[("data_res_q", 300)], mc_t=[("data_res_q", 300)],
                  inv=[], step=["C16_ManagerOnly", "C16_Footprint"], tinv=[],
                  gen=[("data_res_g", 40, 25), ("data_q", 12, 25)], gen_t=[("data_res_g", 400, 30), ("data_q", 100, 30)]),
         ],
     ),
     "C13": dict(
-        family="eco", edge=["bridge_q"],
+        family="eco", edge_q=["bridge2_e"], edge=["bridge_q", "bridge2_e"],
         mc=[("bridge_q", 200)], mc_t=[("bridge_t", 900)],
         inv=["C13_AtMostOnce", "C13_ContractsUnique"],
-        step=["C13_AllowedSource", "C13_BindingPermanent", "C13_ReceiveIntoBound", "C13_BridgeOut"],
+        step=["C13_AllowedSource", "C13_BindingPermanent", "C13_ReceiveIntoBound", "C13_BridgeOut", "C13_ChainsAsSet"],
         tinv=[],
     ),
     "C14": dict(
@@ -108,7 +108,7 @@ PROPS = {
         family="eco", edge_q=["zerofee_q"], edge=["params_e", "zerofee_q"],
         mc=[("params_q", 300), ("zerofee_q", 60)], mc_t=[("params_t", 900), ("zerofee_q", 60)],
         inv=[],
-        step=["C18_FeeExact", "C18_NoFeatureDisabled"],
+        step=["C18_FeeExact", "C18_NoFeatureDisabled", "C18_ParamsAsSet"],
         tinv=[],
         tstep=["T_C18_NoAbnormalAbort"],
     ),
@@ -139,7 +139,7 @@ PROPS = {
     ),
     "C15": dict(family="iri", mc=[], inv=[], step=[], tinv=[]),
     "C16": dict(
-        family="data", mc_module="MC_Data", trace_module="TraceData",
+        family="data", mc_module="MC_Data", trace_module="TraceData", edge_q=["data_e4"], edge=["data_e4", "data_e5"],
         mc=[("data_q", 300), ("data_buckets_q", 300), ("data_equal_q", 300), ("data_res_q", 300)],
         mc_t=[("data_t", 1500), ("data_buckets_q", 300), ("data_equal_q", 300), ("data_res_q", 300)],
         inv=["C16_IdInjective", "C16_RowsReferToIds"],
